@@ -124,6 +124,28 @@ fn check_text_inner(text: &str) -> Result<&'static str, Fail> {
         }
         Ok(Ok(m)) => m,
     };
+    // two modules that import every symbol from each other (a cycle of re-exports): Ok or Err
+    if !unresolved.imports.is_empty() {
+        let mut a = unresolved.clone();
+        let mut b = unresolved.clone();
+        b.name = format!("{}-Twin", a.name);
+        for i in &mut a.imports {
+            i.from = b.name.clone();
+            i.from_oid = None;
+        }
+        for i in &mut b.imports {
+            i.from = a.name.clone();
+            i.from_oid = None;
+        }
+        if let Err(p) = catch(|| {
+            let mut r = MultiModuleResolver::default();
+            r.push(a);
+            r.push(b);
+            r.try_resolve_all().is_ok()
+        }) {
+            return Err((format!("resolver-panic:{}", panic_class(&p)), format!("MultiModuleResolver panicked on two modules importing from each other: {p}")));
+        }
+    }
     let resolved = match catch(|| unresolved.try_resolve()) {
         Err(p) => return Err((format!("resolver-panic:{}", panic_class(&p)), format!("the resolver panicked: {p}"))),
         Ok(Err(_)) => {
@@ -185,6 +207,10 @@ pub enum Edit {
     /// numbers at type limits, negative sizes
     SwapNumbers(u16, u16),
     ReplaceNumber(u16, u16),
+    /// a module that imports from itself (an IMPORTS clause is added if there is none)
+    ImportFromSelf(u16),
+    /// a character outside ASCII inside a quoted literal ('..'H, '..'B, ".."), at any offset
+    ForeignInLiteral(u16, u16, u16),
 }
 
 const NUMBERS: [&str; 24] = [
@@ -218,6 +244,8 @@ pub fn edit_strategy() -> impl Strategy<Value = Edit> {
         3 => (any::<u16>(), any::<u16>()).prop_map(|(a, b)| Edit::ReplaceToken(a, b)),
         3 => (any::<u16>(), any::<u16>()).prop_map(|(a, b)| Edit::SwapNumbers(a, b)),
         4 => (any::<u16>(), any::<u16>()).prop_map(|(a, b)| Edit::ReplaceNumber(a, b)),
+        2 => any::<u16>().prop_map(Edit::ImportFromSelf),
+        3 => (any::<u16>(), any::<u16>(), any::<u16>()).prop_map(|(a, b, c)| Edit::ForeignInLiteral(a, b, c)),
     ]
 }
 
@@ -270,6 +298,39 @@ pub fn apply(text: &str, edits: &[Edit]) -> String {
                 let nums: Vec<usize> = (0..n).filter(|i| is_number(&toks[*i])).collect();
                 if !nums.is_empty() {
                     toks[nums[scale(*p, nums.len() - 1)]] = NUMBERS[scale(*v, NUMBERS.len() - 1)].to_string();
+                }
+            }
+            Edit::ForeignInLiteral(p, q, v) => {
+                const FOREIGN: [char; 6] = ['\u{e4}', '\u{e9}', '\u{20ac}', '\u{1F600}', '\u{7ff}', '\u{0}'];
+                let lits: Vec<usize> = (0..n).filter(|i| toks[*i].starts_with('\'') || toks[*i].starts_with('"')).collect();
+                if lits.is_empty() {
+                    // none in the text: add a value assignment with an hstring
+                    if let Some(b) = toks.iter().position(|t| t == "BEGIN") {
+                        for (k, t) in ["lit-v", "OCTET", "STRING", "::=", "'0A1B2C'H"].into_iter().enumerate() {
+                            toks.insert(b + 1 + k, t.to_string());
+                        }
+                    }
+                } else {
+                    let i = lits[scale(*p, lits.len() - 1)];
+                    let mut chars: Vec<char> = toks[i].chars().collect();
+                    // (behind the opening quote, anywhere up to the end)
+                    let at = 1 + scale(*q, chars.len().saturating_sub(1));
+                    chars.insert(at.min(chars.len()), FOREIGN[scale(*v, FOREIGN.len() - 1)]);
+                    toks[i] = chars.into_iter().collect();
+                }
+            }
+            Edit::ImportFromSelf(p) => {
+                let own = toks[0].clone();
+                let start = scale(*p, n - 1);
+                if let Some(i) = (start..n).chain(0..start).find(|i| toks[*i] == "FROM" && *i + 1 < n) {
+                    toks[i + 1] = own;
+                } else if let Some(b) = toks.iter().position(|t| t == "BEGIN") {
+                    // a name the module refers to: a word starting with a lower-case letter
+                    let words: Vec<String> = toks.iter().filter(|t| t.chars().next().map(|c| c.is_ascii_lowercase()).unwrap_or(false) && t.chars().all(|c| c.is_ascii_alphanumeric() || c == '-')).cloned().collect();
+                    let w = if words.is_empty() { "x".to_string() } else { words[scale(*p, words.len() - 1)].clone() };
+                    for (k, t) in ["IMPORTS".to_string(), w, "FROM".to_string(), own, ";".to_string()].into_iter().enumerate() {
+                        toks.insert(b + 1 + k, t);
+                    }
                 }
             }
             other => char_edits.push(other),
@@ -333,7 +394,7 @@ pub fn repo_modules() -> Vec<String> {
     out
 }
 
-const RULE: &str = "valid texts (generator output of the front-end profile and the literal modules of /repo/tests, read as data) with 1..4 edits from {delete / duplicate / swap / insert / replace a token, delete / insert a character, truncate at a token or byte, replace a number by an over-long one, swap two numbers, replace a number by a boundary value (reversed ranges, bounds at type limits), open a block comment}, plus token soups over the ASN.1 vocabulary; pipeline: Tokenizer::parse -> Model::try_from -> try_resolve (and MultiModuleResolver) -> to_rust -> to_protobuf. Oracle: Ok or Err, no panic except the documented 'unclosed comment blocks' one when the input really has an unterminated '/*'; parse::Error::token(), when present, lies inside the input; a case running > 10 s stops the worker and is confirmed 3x in isolation. Non-trivial: the text tokenizes to >= 5 tokens and differs from the valid text it was derived from; distinct = hash of the text.";
+const RULE: &str = "valid texts (generator output of the front-end profile and the literal modules of /repo/tests, read as data) with 1..4 edits from {delete / duplicate / swap / insert / replace a token, delete / insert a character, truncate at a token or byte, replace a number by an over-long one, swap two numbers, replace a number by a boundary value (reversed ranges, bounds at type limits), open a block comment, make the module import from itself, put a non-ASCII character into a quoted literal}, plus token soups over the ASN.1 vocabulary; pipeline: Tokenizer::parse -> Model::try_from -> try_resolve (and MultiModuleResolver, also with a twin module so that both import every symbol from each other) -> to_rust -> to_protobuf. Oracle: Ok or Err, no panic except the documented 'unclosed comment blocks' one when the input really has an unterminated '/*'; parse::Error::token(), when present, lies inside the input; a case running > 10 s stops the worker and is confirmed 3x in isolation. Non-trivial: the text tokenizes to >= 5 tokens and differs from the valid text it was derived from; distinct = hash of the text.";
 
 pub fn run(ctx: Ctx) -> i32 {
     let report = Report::new(ctx.clone(), RULE);
